@@ -178,6 +178,12 @@ impl SimdVarintCodec {
             return Err(ZiporaError::invalid_data("Empty data for varint decoding"));
         }
 
+        // Every varint occupies at least one byte, so more values than bytes cannot be decoded;
+        // refusing here also keeps a caller-supplied count from sizing the allocation
+        if count > data.len() {
+            return Err(ZiporaError::invalid_data("Varint count exceeds input length"));
+        }
+
         let mut output = Vec::with_capacity(count);
 
         match self.tier {
